@@ -1,11 +1,29 @@
 #!/bin/sh
-# Apply a kept seeded change to /repo, run one check against it, and undo it straight afterwards.
-#   tools/seeded_run.sh <seeded-id> <property> [extra check args]
+# Run one check against a kept seeded change and undo the change straight afterwards.
+#   tools/seeded_run.sh <seeded-id|path/to/patch.diff> <property> [extra check args]
+# Default: apply to /repo (git -C /repo apply), run, git -C /repo checkout -- .
+# With SEEDED_SCRATCH=1: work on a scratch copy of /repo under /dev/shm instead (BLSIM_REPO/BLSIM_BUILD_DIR),
+# so that /repo is not disturbed while other runs are using it.
 sid=$1; prop=$2; shift 2
 cd "$(dirname "$0")/.."
+patch="$PWD/seeded/$sid/patch.diff"
+[ -f "$sid" ] && patch=$(readlink -f "$sid")
+if [ -n "$SEEDED_SCRATCH" ]; then
+  S=/dev/shm/blsim-seeded-$$
+  mkdir -p $S/repo
+  (cd /repo && git archive HEAD) | tar -x -C $S/repo
+  (cd $S/repo && git init -q . && git apply "$patch") || { rm -rf $S; exit 2; }
+  # share the dependency build: copy the release deps once
+  mkdir -p /dev/shm/blsim-seeded-build
+  BLSIM_REPO=$S/repo BLSIM_BUILD_DIR=/dev/shm/blsim-seeded-build ./check $prop "$@"
+  rc=$?
+  rm -rf $S
+  echo "seeded $sid vs $prop: rc=$rc (scratch copy)"
+  exit $rc
+fi
 if [ -n "$(git -C /repo status --porcelain --untracked-files=no)" ]; then echo "/repo is not clean"; exit 2; fi
 trap 'git -C /repo checkout -- . ' EXIT INT TERM
-git -C /repo apply "$PWD/seeded/$sid/patch.diff" || exit 2
+git -C /repo apply "$patch" || exit 2
 ./check $prop "$@"
 rc=$?
 echo "seeded $sid vs $prop: rc=$rc"
